@@ -2,6 +2,7 @@ import TonicModel.Model.Health
 import TonicModel.Spec.Health
 import TonicModel.Lemmas.HealthSpec
 import TonicModel.Lemmas.Health
+import TonicModel.Lemmas.HealthPark
 import TonicModel.Basic.HealthLin
 import TonicModel.Lemmas.HealthLin
 /-
@@ -278,6 +279,86 @@ theorem C18_clear_then_ended (ops q : List Op) (w : Nat) (v : View)
   simp only [expected, hv', expectedNext_settled hs', hn', hcl']
   simp
 
+/-! ## awaiting watchers: no lost wake-up
+
+A client that sits in `stream.message().await` is polled by nobody; it runs again only when the
+waker it left in the watch channel is fired.  `Health.pstep` (Model/Health, "Awaiting
+watchers") is the model of that: histories are lists of `Item`s — the operations above plus
+`await w`, which spawns a task awaiting the next message of stream `w`; a task that finds
+nothing is parked; `set` on an existing entry and `clear` notify the entry's channel and the
+tasks parked on it poll again.  `pops items` is the sequential history (`step` operations,
+oldest first) that `items` amounts to, `(pexec pinit items).parked` the streams held by parked
+tasks afterwards. -/
+
+/-- A history with awaiting watchers is a sequential history in which the parked layer only
+decides *when* streams are polled: the table afterwards is the one `pops items` produces, and
+the answers given along the way (to operations, to `await`s, to the polls of woken tasks) are
+exactly the answers of `Health.run` on `pops items`.  Hence everything above — the refinement
+of the oracle, the clauses — holds for every answer an awaiting task ever receives. -/
+theorem C18_parked_is_sequential (items : List Item) :
+    (pexec pinit items).h = exec init (pops items) ∧
+    (pevents pinit items).map (·.2) = Health.run init (pops items) :=
+  pexec_events pinit items
+
+/-- No lost wake-up, as an invariant: after any history, a task that is (still) parked has
+nothing to receive — a poll of its stream at that moment would deliver nothing, and its stream
+is not over.  So whatever made a stream deliverable also completed the task awaiting it. -/
+theorem C18_parked_has_nothing_to_deliver (items : List Item) (w : Nat)
+    (hw : w ∈ (pexec pinit items).parked) : answer (pops items) (.next w) = .pending := by
+  have hq := (pinv_exec pinv_init items).quiet w hw
+  unfold answer
+  rw [← (pexec_sim items).1]
+  exact (next_pending_iff _ _).mpr hq
+
+/-- … in the oracle's words: staying parked is always justified by the property's clauses
+(`mayStayParked`: "nothing to deliver" is an acceptable answer of the stream at that moment). -/
+theorem C18_parked_may_stay_parked (items : List Item) (w : Nat)
+    (hw : w ∈ (pexec pinit items).parked) : mayStayParked (logOf (pops items)) w = true := by
+  have h := C18_parked_has_nothing_to_deliver items w hw
+  rw [answer_spec] at h
+  unfold mayStayParked
+  rw [← h]
+  exact allowed_expected _ (wellLogged_logOf _) _
+
+/-- A parked watcher is woken.  Let a task be parked on stream `w` after any history `pre`, and
+let `v` be what the log says about that stream (`v.name` the watched name).  Then
+* a `set` of that name — to a different status *or to the one the stream delivered last* —
+  completes the task by itself with the new status (it is in the item's `woken` list with
+  `value st`, which is what a poll after the `set` answers, and it is no longer parked);
+* a `clear` of that name completes it with end-of-stream. -/
+theorem C18_parked_watcher_is_woken (pre : List Item) (w : Nat) (v : View)
+    (hw : w ∈ (pexec pinit pre).parked) (hv : view (logOf (pops pre)) w = some v) :
+    (∀ st, (w, .value st) ∈ (pstep (pexec pinit pre) (.op (.set v.name st))).2.woken ∧
+        w ∉ (pstep (pexec pinit pre) (.op (.set v.name st))).1.parked ∧
+        answer (pops pre ++ [.set v.name st]) (.next w) = .value st) ∧
+    ((w, .ended) ∈ (pstep (pexec pinit pre) (.op (.clear v.name))).2.woken ∧
+        w ∉ (pstep (pexec pinit pre) (.op (.clear v.name))).1.parked ∧
+        answer (pops pre ++ [.clear v.name]) (.next w) = .ended) := by
+  have hinv := pinv_exec pinv_init pre
+  obtain ⟨hex, hsim⟩ := pexec_sim pre
+  obtain ⟨wt, c, hwt, hc, hseen, hcl⟩ := hinv.quiet w hw
+  obtain ⟨c', v', hc', hv', k⟩ := hsim.w_some w wt hwt
+  have hvv : v' = v := Option.some.inj (hv'.symm.trans hv)
+  have hcc : c' = c := Option.some.inj (hc'.symm.trans hc)
+  subst hvv hcc
+  have hl : lookup v'.name (pexec pinit pre).h.reg = some wt.chan := k.live_reg hcl
+  have hchan : chanOf (pexec pinit pre).h w = some wt.chan := by simp [chanOf, hwt]
+  refine ⟨fun st => ?_, ?_⟩
+  · have hnext := next_after_set hwt hc hseen v'.name st hl
+    have := woken_of_update hinv hw (.set v'.name st) (by simp) (by simp) (i := wt.chan)
+      (by simp [notified, hl]) hchan (by rw [hnext]; simp)
+    rw [hnext] at this
+    refine ⟨this.1, this.2, ?_⟩
+    unfold answer
+    rw [exec_append, ← hex]; exact hnext
+  · have hnext := next_after_clear hwt hc hseen v'.name hl
+    have := woken_of_update hinv hw (.clear v'.name) (by simp) (by simp) (i := wt.chan)
+      (by simp [notified, hl]) hchan (by rw [hnext]; simp)
+    rw [hnext] at this
+    refine ⟨this.1, this.2, ?_⟩
+    unfold answer
+    rw [exec_append, ← hex]; exact hnext
+
 /-! ## concurrent histories
 
 The correspondence run also records histories of concurrent tasks and searches for a
@@ -345,6 +426,16 @@ example : current (logOf [.set [97] .serving]) [97] = some .serving ∧
 -- hypotheses of `C18_watch_converges` / `C18_watch_then_silent` (open stream with a delivery)
 example : view (logOf [.watch [], .next 0, .set [] .notServing]) 0
     = some ⟨[], .serving, [(.set [] .notServing, .done), (.next 0, .value .serving)]⟩ := by decide
+-- hypotheses of `C18_parked_watcher_is_woken`: `set a NOT_SERVING; watch a; next 0; await 0`
+-- leaves a task parked on stream 0 (name `a`); `set a NOT_SERVING` again completes it
+example : (pexec pinit [.op (.set [97] .notServing), .op (.watch [97]), .op (.next 0), .await 0]).parked = [0] ∧
+    (view (logOf (pops [.op (.set [97] .notServing), .op (.watch [97]), .op (.next 0), .await 0])) 0).map (·.name)
+      = some [97] := by decide
+example : prun pinit [.op (.set [97] .notServing), .op (.watch [97]), .op (.next 0), .await 0,
+      .op (.set [] .unknown), .op (.set [97] .notServing), .await 0, .op (.clear [97])]
+    = [⟨.plain .done, []⟩, ⟨.plain .subscribed, []⟩, ⟨.plain (.value .notServing), []⟩, ⟨.parked, []⟩,
+       ⟨.plain .done, []⟩, ⟨.plain .done, [(0, .value .notServing)]⟩, ⟨.parked, []⟩,
+       ⟨.plain .done, [(0, .ended)]⟩] := by decide
 -- a recorded concurrent history (writer: set a 1 during [2,5]; watcher: subscribed during [0,1],
 -- delivery of 1 recorded during [3,4]) is found linearizable against model and clauses
 example :
